@@ -15,7 +15,7 @@ MANIFEST = dict(
     technique="Lean 4 proof over a hand-written executable model + correspondence run against the real StdioClient",
     design="5/C06",
 )
-GEN: list = []
+GEN: list = ["StdioExit"]
 THEOREMS = [
     "c06_encoder_no_raw_break",
     "c06_no_raw_break",
@@ -35,6 +35,13 @@ THEOREMS = [
     "c06_two_writers_every_schedule",
     "c06_each_line_message_or_rejection",
     "c06_two_writers_line_count",
+    "c06_exit_translated",
+    "c06_exit_only_cancel_scope_swallowed",
+    "c06_exit_serialisation_error_propagates",
+    "c06_exit_group",
+    "c06_guard_ctor",
+    "c06_guard_streams",
+    "c06_guard_transport",
 ]
 RULE = (
     "sequences of 0..8 outbound items of the three accepted shapes (typed request / notification / response / error / "
@@ -181,7 +188,10 @@ class Writer(Suite):
         self.mode = mode
         self.name = "writer/" + mode
 
+    _ctx = None
+
     def cases(self, ctx, budget):
+        self._ctx = ctx
         if self.mode == "fallback" and budget == "quick":
             return []  # the fallback backend (no Pydantic) is exercised in the thorough tier and in the search
         rng = ctx.sub_rng("writer", budget)  # same sequences for every backend
@@ -211,6 +221,10 @@ class Writer(Suite):
             out.append({"items": [falsy_item(random_r(k), digits), base[0], falsy_item(random_r(k + 50), digits)], "close": True})
         for v in ([], [1], 0, True, None):
             out.append({"items": [base[0], {"k": "other", "v": v}, base[2]], "close": True})
+        # error paths: closing the child's stdin fails (the pipe is gone); a send_json after the writer task has gone
+        out.append({"items": base, "close": True, "aclose_raises": True})
+        out.append({"items": [], "close": True, "aclose_raises": True})
+        out.append({"items": base, "close": True, "late_send_json": base[0]})
         n = 1500 if budget == "quick" else 8000
         for _ in range(n):
             items = [rand_item(rng, digits) for _ in range(rng.randrange(0, 9))]
@@ -340,6 +354,8 @@ class Writer(Suite):
                 return ("stdin-closed-early", "the child's stdin was closed although the write stream is open", exp)
         if o["closed_before"]:
             return ("stdin-closed-early", "the child's stdin was closed before the write stream was closed", exp)
+        if o.get("late") and o["late"] != "returned" and getattr(self, "_ctx", None) is not None:
+            self._ctx.notes.append(f"INFORMATIONAL: send_json after the writer task has gone {o['late']}")
         return None
 
     def kind(self, case, o):
@@ -601,10 +617,135 @@ def extra(ctx, tier):
     """line coverage of the anchored functions reached by this run (visibility only, no verdict)"""
     from .. import stdio_cov
 
-    for n in stdio_cov.notes(['._stdin_writer', 'stdio_client.send_json', '._send_error', '.get_streams', 'transport.']):
+    for n in stdio_cov.notes(['._stdin_writer', '.send_json', '.__init__', '._ensure_streams', '._send_error', '.get_streams', 'transport.']):
         if n not in ctx.notes:
             ctx.notes.append(n)
 
 
+EXIT_TEXTS = [
+    "", "boom", "cancel scope", "Cancel Scope", "CANCEL SCOPE", "cancel  scope", "cancelscope", "cancel_scope",
+    "Attempted to exit a cancel scope that isn't the current tasks's current cancel scope",
+    "Attempted to exit cancel scope in a different task than it was entered in",
+    "JSON object must be str, bytes or bytearray, not dict", "the JSON object must be str, bytes or bytearray, not 'NoneType'",
+    "json object must be str", "JSON OBJECT MUST BE STR", "json object must be  str", "json object must be st",
+    "json object must be str ... cancel scope", "cancel scope / json object must be str", "Initialization failed",
+    "%s {0} %(x)s", "\u212aancel scope", "canc\u0113l scope", "cancel scope\n", "\ncancel scope", "x" * 5000 + "cancel scope",
+    "Cancel\u00a0Scope", "connection reset", "stdin_writer error", "None", "0",
+]
+
+
+class Guards(Suite):
+    """Supplementary: the entry guards (constructor validation, use of the streams before the object was entered,
+    the StdioTransport wrapper).  Divergences are informational."""
+
+    name = "guards"
+    _ctx = None
+
+    def cases(self, ctx, budget):
+        self._ctx = ctx
+        out = []
+        for falsy in ("", None, 0, [], False):
+            out.append({"guard": "ctor", "command": False, "args": True, "falsy": falsy})
+        for nonseq in ("notalist", None, 0, {"a": 1}, {"a"}, b"ab"):
+            out.append({"guard": "ctor", "command": True, "args": False, "nonseq": nonseq if not isinstance(nonseq, (set, bytes)) else str(nonseq)})
+        for seq in (["a"], [], ("a", "b"), ()):
+            out.append({"guard": "ctor", "command": True, "args": True, "seq": list(seq), "tuple": isinstance(seq, tuple)})
+        out.append({"guard": "ctor", "command": False, "args": False})
+        for h in ([], ["enter"], ["enter", "exit"], ["enter", "exit", "enter"], ["enter", "exit", "enter", "exit"]):
+            out.append({"guard": "streams", "history": h})
+            out.append({"guard": "transport", "history": h})
+        out.append({"guard": "transport", "history": ["exit"]})
+        out.append({"guard": "transport", "history": ["exit", "exit"]})
+        return out
+
+    def impl_batch(self, cases):
+        from .. import stdio_h
+
+        return stdio_h.run_guard_cases(cases)
+
+    def model_line(self, case):
+        if case["guard"] == "ctor":
+            return {"m": "stdio_writer", "guard": "ctor", "command": case["command"], "args": case["args"]}
+        return {"m": "stdio_writer", "guard": case["guard"], "history": case["history"]}
+
+    def compare(self, case, o, m):
+        # send_json: refused by the guard before the first enter; works while entered; after an exit the outgoing stream is
+        # closed (ClosedResourceError is what anyio raises for that - only BrokenResourceError is swallowed by the code)
+        sj = o.get("send_json")
+        if m.get("guard") == "RuntimeError":
+            sj_ok = sj in (None, "RuntimeError")
+        elif case.get("history") and case["history"][-1] == "enter":
+            sj_ok = sj in (None, "ok")
+        else:
+            sj_ok = sj in (None, "ok", "other:ClosedResourceError")
+        bad = o.get("guard") != m.get("guard") or not sj_ok \
+            or any(x is not False for x in o.get("exit_returns", [])) or o.get("set_version", "ok") != "ok"
+        if bad and self._ctx is not None and len(self._ctx.notes) < 8:
+            self._ctx.notes.append(f"INFORMATIONAL guard divergence on {case}: code {o}, model {m}")
+        return None
+
+    def oracle(self, case, o):
+        return None
+
+    def kind(self, case, o):
+        return f"guards/{case['guard']}/{o.get('guard')}"
+
+
+class Exit(Suite):
+    """Supplementary (not named by the property text): which exception raised inside
+    `async with stdio_client(...)` / `stdio_client_with_initialize(...)` gets out - the regenerated
+    filters of Gen/StdioExit.lean against the real context managers.  Divergences are informational."""
+
+    name = "exit"
+    _ctx = None
+
+    def cases(self, ctx, budget):
+        self._ctx = ctx
+        rng = ctx.sub_rng("exit", budget)
+        out = []
+        for entry in ("client", "init"):
+            out.append({"entry": entry, "exc": {"kind": "cancelled"}})
+            for t in EXIT_TEXTS:
+                out.append({"entry": entry, "exc": {"kind": "error", "cls": rng.choice(["Exception", "RuntimeError", "ValueError", "TypeError", "OSError"]), "msg": t}})
+                out.append({"entry": entry, "exc": {"kind": "group", "members": [{"msg": t}]}})
+            out.append({"entry": entry, "exc": {"kind": "group", "members": [{"cancelled": True}]}})
+            out.append({"entry": entry, "exc": {"kind": "group", "members": []}} if False else
+                       {"entry": entry, "exc": {"kind": "group", "members": [{"cancelled": True}, {"cancelled": True}]}})
+            for _ in range(40 if budget == "quick" else 600):
+                ms = [({"cancelled": True} if rng.random() < 0.25 else {"msg": rng.choice(EXIT_TEXTS)}) for _ in range(rng.randrange(1, 5))]
+                out.append({"entry": entry, "exc": {"kind": "group", "members": ms}})
+        for v in ("2025-06-18", "2024-11-05"):
+            out.append({"entry": "init", "version": v, "exc": {"kind": "error", "msg": "boom"}})
+        return out
+
+    def impl_batch(self, cases):
+        from .. import stdio_h
+
+        return stdio_h.run_exit_cases(cases)
+
+    def model_line(self, case):
+        e = case["exc"]
+        if e["kind"] != "cancelled" and not all(ord(c) < 128 for m in ([e] if e["kind"] == "error" else e["members"])
+                                                for c in m.get("msg", "")):
+            return None  # str.lower() of non-ASCII text is outside the model (ASCII lower-casing)
+        return {"m": "stdio_exit", "entry": case["entry"], "exc": e}
+
+    def compare(self, case, o, m):
+        if "harness_error" in o or "driver_error" in m:
+            return "error"
+        if o["propagated"] != m["propagates"] and self._ctx is not None and len(self._ctx.notes) < 8:
+            self._ctx.notes.append(f"INFORMATIONAL exit-filter divergence on {case}: code propagated={o['propagated']}, "
+                                   f"regenerated filter says {m['propagates']}")
+        return None
+
+    def oracle(self, case, o):
+        if "harness_error" in o:
+            return ("client-raised", f"the stdio client raised {o['harness_error']} before the body ran", None)
+        return None  # the property text says nothing about which exceptions leave the context manager
+
+    def kind(self, case, o):
+        return f"exit/{case['entry']}/{case['exc']['kind']}/" + ("propagated" if o.get("propagated") else "swallowed")
+
+
 def suites():
-    return [Writer("orjson"), Writer("no-orjson"), Writer("fallback"), Duplex()]
+    return [Writer("orjson"), Writer("no-orjson"), Writer("fallback"), Duplex(), Exit(), Guards()]
